@@ -14,7 +14,7 @@ import (
 func init() {
 	register(&propDef{
 		id: "C02", level: "other", run: runC02,
-		explanation: "The statement is value-level and is NOT decided as a whole. Decided necessary conditions, each of which breaks decoded values when broken: (R1) byte-order discipline: every multi-byte read in the record-parsing functions uses the definition's own byte order; (R2) arm/table agreement: each arm of parseFitField/parseFitFieldArray reads Size(base) bytes and uses the setter family of its base type, and every base type that occurs in the profile table has an arm; (R3) sign extension: where the exactly computed accepted set of the validator admits a signed definition type narrower than the struct field, the conversion to int64 passes through the signed type of the read's width; (R4) all-invalid start and field targeting: the message comes from getMesgAllInvalid and every reflect write goes to Field(sindex) of the profile row looked up for the current (message, field number); (R5) skip by size: every field iteration consumes exactly the definition's size before any continue, and each developer descriptor consumes its own size; (R6) developer section: every success return of parseDefinitionMessage is reached through the developer-flag test; (R7) the scratch buffers do not escape into results; (R8) widening of narrow fields: little-endian zero fill of [size, profile size), big-endian right-alignment only for the kinds that read the profile-sized slot, never by an ascending overlapping self-copy. NOT decided: that the bytes placed in a struct field equal the wire value for every bit pattern; zero- versus sign-padding of narrow coordinates; string termination rules; developer-field content. Added: the string-array arm cuts strings inside a loop (more than one element can be produced); every return of parseTimeStamp other than the invalid-value exit is preceded by a Set of the field. (R12) every constructor gives every member the invalid value of its row's base type, so absent fields read as invalid. Every decode starts from fresh decoder state (C02-R13-per-file-state, C10-R4-shared-decode): a value is computed from this file's bytes only. (R14-time-conversion) parseTimeStamp's three conversion shapes are the recognised ones: a time field reads as its wire value.",
+		explanation: "The statement is value-level and is NOT decided as a whole. Decided necessary conditions, each of which breaks decoded values when broken: (R1) byte-order discipline: every multi-byte read in the record-parsing functions uses the definition's own byte order; (R2) arm/table agreement: each arm of parseFitField/parseFitFieldArray reads Size(base) bytes and uses the setter family of its base type, and every base type that occurs in the profile table has an arm; (R3) sign extension: where the exactly computed accepted set of the validator admits a signed definition type narrower than the struct field, the conversion to int64 passes through the signed type of the read's width; (R4) all-invalid start and field targeting: the message comes from getMesgAllInvalid and every reflect write goes to Field(sindex) of the profile row looked up for the current (message, field number); (R5) skip by size: every field iteration consumes exactly the definition's size before any continue, and each developer descriptor consumes its own size; (R6) developer section: every success return of parseDefinitionMessage is reached through the developer-flag test; (R7) the scratch buffers do not escape into results; (R8) widening of narrow fields: little-endian zero fill of [size, profile size), big-endian right-alignment only for the kinds that read the profile-sized slot, never by an ascending overlapping self-copy. NOT decided: that the bytes placed in a struct field equal the wire value for every bit pattern; zero- versus sign-padding of narrow coordinates; string termination rules; developer-field content. Added: the string-array arm cuts strings inside a loop (more than one element can be produced); every return of parseTimeStamp other than the invalid-value exit is preceded by a Set of the field. (R12) every constructor gives every member the invalid value of its row's base type, so absent fields read as invalid. Every decode starts from fresh decoder state (C02-R13-per-file-state, C10-R4-shared-decode): a value is computed from this file's bytes only. (R14-time-conversion) parseTimeStamp's three conversion shapes are the recognised ones: a time field reads as its wire value. (R15-accepted-set) every field definition the validator accepted on the pinned tree is still accepted. (R16-array-elements-kept) the array stored is the slice the element loop filled. C12's rules for the rolling time reference run here too.",
 		trusted:     []string{"exact folding of validateFieldDef (checker/eval.go, checker/matrix.go)", "reflect setter semantics (SetInt/SetUint truncate to the field width)", "builtin copy handles overlap"},
 	})
 }
@@ -137,6 +137,14 @@ func runC02(c *Ctx, r *Report) {
 	// (reference time of compressed timestamps, definition slots, buffer cursors)
 	perFileRule(c, r, "C02-R13-per-file-state", nil, "a value of this file (compressed timestamps, fields decoded through a stale definition or buffer) is computed from what an earlier decode left behind")
 	sharedDecode(c, r)
+	c02AcceptedSet(c, r)
+	c02ArrayElementsKept(c, r)
+	// the rolling reference of compressed timestamps advances with every compressed record and only
+	// there, whatever message carries it (C12's rules): an unknown message in between does not disturb
+	// the time of its neighbours
+	r.only = map[string]bool{"C12-R3-guards": true, "C12-R2-who-rebases": true, "C12-R1-paired-update": true, "C12-R3-formula": true}
+	runC12(c, r)
+	r.only = nil
 	// time values equal what the wire denotes: UTC = epoch + seconds; a local time reads, on the wall
 	// clock, as epoch + its own seconds (the reference instant in a zone of offset local - UTC exactly)
 	if fn := c.ssaFn(c.fn(c.fit, "decoder.parseTimeStamp")); fn != nil {
